@@ -65,6 +65,11 @@ CLAIMS = {
          "independently of educe; unions compared by byte image.",
          COMMON_NOTE + "the value of a user expression is an input of the model (measured by rustc), the model decides which expression goes to which field and whether Into is applied; literal kind/suffix and the field type's token string are read by syn.",
          "Lean 4 theorem + differential correspondence against independently built values"),
+ "C20": ("Theorems union_generated_iff_unsafe, union_eq_bytewise, union_hash_injective / union_hash_shape (length prefix + the bytes as one "
+         "slice), union_debug_named / union_debug_bare, union_clone_bitwise, union_default_designated. Tie: real macro + rustc over unions "
+         "of every size class initialised from byte patterns: == on all pairs, recorded hasher writes, {:?}/{:#?}.",
+         COMMON_NOTE + "the byte view (from_raw_parts over size_of::<Self>()) is taken as given: unions with padding are not generated because reading padding is undefined; the refusal without `unsafe` is proved on the model and tied to the code by the attribute-layer correspondence (C13).",
+         "Lean 4 theorem + differential correspondence on byte patterns"),
 }
 
 ENGINES = [
